@@ -121,7 +121,7 @@ impl Ctx {
             let key = if m.starts_with("ok") {
                 "ok".to_string()
             } else if m.starts_with("err") || m.starts_with("panic") || m.starts_with("bad-op") {
-                m.split(' ').take(2).collect::<Vec<_>>().join(" ")
+                m.split(' ').take(2).collect::<Vec<_>>().join(" ").chars().take(40).collect()
             } else if let Some(t) = m.split(' ').find(|t| t.starts_with("end=")) {
                 t.to_string()
             } else {
